@@ -87,7 +87,12 @@ static void build_want(int from)
 	for (k = from; k < n_pkt; k++) {
 		const struct group *g = &pkt[k];
 		if (k == from) cur.pts = g->pts;
-		if (g->n > 0 && cur.n > 0 && g->l[0].line <= cur.l[cur.n - 1].line) {
+		/* the statement's frame rule: "recognisable by a non-increasing line number"; lines whose number is not
+		 * known (0) take no part in it (EN 301 775 4.5.2: line_offset 0 = undefined), and the generator never puts
+		 * one in front of the first known line of a frame */
+		int last_known = 0, q;
+		for (q = cur.n - 1; q >= 0 && !last_known; q--) last_known = (int)cur.l[q].line;
+		if (g->n > 0 && cur.n > 0 && g->l[0].line != 0 && (int)g->l[0].line <= last_known) {
 			if (n_want < MAXGRP) want[n_want++] = cur;
 			cur.n = 0; cur.pts = g->pts;
 		}
@@ -100,6 +105,10 @@ static const char *compare_groups(char *why, size_t whylen)
 {
 	int g, k;
 	if (got_overflow) { snprintf(why, whylen, "demultiplexer delivered more than %d frames or a frame of more than 80 lines", MAXGRP); return "frame-count"; }
+	if (n_got != n_want && vf_verbose) {
+		for (g = 0; g < n_want; g++) vf_log("  want frame %d: %d lines, first %u, last %u, pts 0x%llx\n", g, want[g].n, want[g].n ? want[g].l[0].line : 0, want[g].n ? want[g].l[want[g].n - 1].line : 0, (unsigned long long)want[g].pts);
+		for (g = 0; g < n_got; g++) vf_log("  got  frame %d: %d lines, first %u, last %u, pts 0x%llx\n", g, got[g].n, got[g].n ? got[g].l[0].line : 0, got[g].n ? got[g].l[got[g].n - 1].line : 0, (unsigned long long)got[g].pts);
+	}
 	if (n_got != n_want) { snprintf(why, whylen, "%d frames expected by the frame rule from %d packets, demultiplexer delivered %d", n_want, n_pkt, n_got); return "frame-count"; }
 	for (g = 0; g < n_got; g++) {
 		if (got[g].pts != want[g].pts) { snprintf(why, whylen, "frame %d delivered with PTS 0x%llx, sent with 0x%llx", g, (unsigned long long)got[g].pts, (unsigned long long)want[g].pts); return "pts"; }
@@ -235,6 +244,9 @@ static int run_case(struct vf_rng *r, long idx)
 	memset(&c, 0, sizeof c);
 	c.ts = vf_chance(r, 1, 2);
 	c.cor = vf_chance(r, 1, 2);
+	/* Teletext lines whose line number is not known (0) are legal input, anywhere in the frame, also several in a row */
+	opts.line0 = vf_chance(r, 1, 4) ? 2 : 0;
+	if (opts.line0) vf_count("streams_with_undefined_line_numbers", 1);
 	c.pid = vf_chance(r, 1, 4) ? (unsigned[]){ 0x10, 0x11, 0x1FFE, 0x1FFD, 0x100, 0x1234 }[vf_below(r, 6)] : (unsigned)vf_range(r, 0x10, 0x1FFE);
 	c.di = 0x10; c.min_sz = 184; c.max_sz = 65504;
 
@@ -253,6 +265,7 @@ static int run_case(struct vf_rng *r, long idx)
 
 	vf_phase("vbi_dvb_demux_new");
 	dx = c.ts ? _vbi_dvb_ts_demux_new(demux_cb, NULL, c.pid) : vbi_dvb_pes_demux_new(demux_cb, NULL);
+	if (dx && vf_verbose && getenv("C06_DEMUX_LOG")) vbi_dvb_demux_set_log_fn(dx, (vbi_log_mask)-1, vbi_log_on_stderr, NULL);
 	if (!dx) { vf_fail("harness:alloc", "demux_new failed"); vbi_dvb_mux_delete(mx); return 0; }
 	dp_ts_init(&tsst, c.pid);
 	n_got = n_want = got_overflow = cur_started = n_pkt = 0;
